@@ -57,6 +57,8 @@ def callee_shapes(names):
 CALLEE_NAMES = [('x', 'y', 'z', 't'), ('u', 'v', 'r', 't')]
 S2 = absig.Sentinel('S', 2)
 TOP_CONTEXTS = ['expr', 'assign', 'if', 'try', 'with', 'compr', 'decoyarg', 'for', 'ternary', 'boolop']
+# further statement forms in which the call is executed exactly once (variant 3, which also reaches the callees through an attribute: NS.w1)
+TOP_CONTEXTS3 = ['while', 'else', 'finally', 'withitem', 'fstring', 'subscript', 'assert', 'starlist', 'elif', 'except_else', 'dictvalue', 'compare']
 
 
 def call_text(callee, s, n, names, va, vk, k):
@@ -98,6 +100,30 @@ def in_context(ctx, call, i):
         return ['r%d = %s if SWT else None' % (i, call)]
     if ctx == 'boolop':
         return ['r%d = SWT and %s' % (i, call)]
+    if ctx == 'while':
+        return ['while SWT:', '    ' + call, '    break']
+    if ctx == 'else':
+        return ['if SWF:', '    pass', 'else:', '    ' + call]
+    if ctx == 'elif':
+        return ['if SWF:', '    pass', 'elif SWT:', '    ' + call]
+    if ctx == 'finally':
+        return ['try:', '    pass', 'finally:', '    ' + call]
+    if ctx == 'except_else':
+        return ['try:', '    pass', 'except ZeroDivisionError:', '    pass', 'else:', '    ' + call]
+    if ctx == 'withitem':
+        return ['with CMV(%s):' % call, '    pass']
+    if ctx == 'fstring':
+        return ["r%d = f'{%s}'" % (i, call)]
+    if ctx == 'subscript':
+        return ['r%d = {None: 0}[%s]' % (i, call)]
+    if ctx == 'assert':
+        return ['assert %s is None' % call]
+    if ctx == 'starlist':
+        return ['r%d = [*(%s or ())]' % (i, call)]
+    if ctx == 'dictvalue':
+        return ['r%d = {0: %s}' % (i, call)]
+    if ctx == 'compare':
+        return ['r%d = None is %s' % (i, call)]
     raise ValueError(ctx)
 
 
@@ -149,6 +175,7 @@ def render(prog, o, choice, variant=0):
     vk = next(p['n'] for p in o if p['k'] == 'vkw')
     body, linemap, late = [], {}, []
     gname = 'g%d_' if variant != 2 else 'helper%d_'
+    wref = 'NS.w%d' if variant == 3 else 'w%d'
 
     def emit(lines, sid):
         for l in lines:
@@ -164,11 +191,11 @@ def render(prog, o, choice, variant=0):
         elif s['k'] == 'fwd':
             if c.get('relay'):
                 # through an intermediate forwarder that takes its callee as first argument: R(w1, <the same arguments>)
-                call = call_text('R', s, c['n'], c['names'], va, vk, i).replace('R(', 'R(w%d, ' % c['w'], 1).replace(', )', ')')
+                call = call_text('R', s, c['n'], c['names'], va, vk, i).replace('R(', 'R(%s, ' % (wref % c['w']), 1).replace(', )', ')')
             else:
-                call = call_text('w%d' % c['w'], s, c['n'], c['names'], va, vk, i)
+                call = call_text(wref % c['w'], s, c['n'], c['names'], va, vk, i)
             if s['ctx'] == 'top':
-                ctx = 'expr' if variant == 0 else TOP_CONTEXTS[(i + variant) % len(TOP_CONTEXTS)]
+                ctx = 'expr' if variant == 0 else TOP_CONTEXTS3[(i + len(prog)) % len(TOP_CONTEXTS3)] if variant == 3 else TOP_CONTEXTS[(i + variant) % len(TOP_CONTEXTS)]
                 emit(in_context(ctx, call, i), i)
             elif s['ctx'] == 'dead':
                 emit(['if SWF:', '    ' + call], i)
@@ -267,7 +294,7 @@ def build(prog, o, ws, choice, variant):
     L = ['import contextlib']
     for k, w in enumerate(ws, 1):
         L += ['def w%d(%s):' % (k, absig.render_params(w)), '    CALLED()', '    return None']
-    L += ['def R(fn, *a, **k):', '    return fn(*a, **k)']
+    L += ['def R(fn, *a, **k):', '    return fn(*a, **k)', 'import types', 'NS = types.SimpleNamespace(%s)' % ', '.join('w%d=w%d' % (k, k) for k in range(1, len(ws) + 1))]
     pre = '\n'.join(L) + '\n'
     nlines = pre.count('\n')
     full = pre + src
@@ -371,7 +398,7 @@ def shapes(names, maxpos, kwmax):
                 yield np_, kw
 
 
-def program_event(tid, prog, o, ws, choice, kwmax=2, variants=(1, 2)):
+def program_event(tid, prog, o, ws, choice, kwmax=2, variants=(1, 2, 3)):
     import sigtools
     from sigtools import signatures
     taintfree = all(s['k'] != 'taint' and s.get('arg', '-') == '-' for s in prog)
